@@ -97,6 +97,14 @@ def run(ctx: Ctx, scale: float = 1.0) -> None:
                 # two requested features land in ONE feature set (same group options) but differ in their context options
                 same_set_diff_ctx = any(a[0] == b[0] and a[1] != b[1] for a in ids for b in ids)
                 cls = None
+                # engine-level differences that c11.py already knows (decided by running the single filter on the engine directly)
+                fcs = set()
+                for col_, ft, p in c["filters"]:
+                    single = B._single(B.engines(), eng, cols, col_, ft, p)
+                    fcs.add(B.finding_class(eng, c["ct"], c["col"], ft, p, single, B.oracle_rows(c["col"], ft, p)))
+                fcs.discard(None)
+                if fcs:
+                    cls = sorted(fcs)[0]
                 if same_set_diff_ctx and isinstance(got, dict) and "have the same filters" in str(got.get("err", "")):
                     cls = "global-filter-with-two-context-variants-in-one-feature-set-rejected"
                 ctx.violation("e2e_opts", case, f"rows returned under a global filter differ from the rows satisfying it (feature options: {c['placements']})", got, exp, finding_class=cls)
